@@ -960,7 +960,7 @@ impl<'a> TypeMono<'a> {
             OperandClass::Arithmetic => numeric,
             OperandClass::Additive | OperandClass::Ordered => numeric || matches!(ty, Ty::TString),
             OperandClass::Equality => match ty {
-                Ty::TFunc { .. } | Ty::TVec { .. } => false,
+                Ty::TFunc { .. } | Ty::TVec { .. } | Ty::TDyn { .. } => false,
                 Ty::TTuple { typs } => typs.iter().all(|t| self.in_domain(class, t, visiting)),
                 Ty::TArray { elem, .. } => self.in_domain(class, elem, visiting),
                 Ty::TStruct { name } | Ty::TEnum { name } => {
